@@ -588,3 +588,5 @@ def run(ctx):
 
     r = ctx.rule("R6f", "x86_64 gradient add / sub / neg / mul / div / sqrt / square / recip: value lane and the three derivative lanes follow the chain rule (symbolic lanes)", 9)
     ctx.guarded(r, XS86.check_lane_semantics, "grad_slice")
+    r = ctx.rule("R6g", "aarch64 gradient compare / not / and / or select whole gradients by the value lane (symbolic masks)", 4)
+    ctx.guarded(r, XS.check_mask_logic, "grad_slice")
